@@ -63,7 +63,7 @@ Proof. vm_compute. repeat split. Qed.
 (** * Parsers over a file: [file := N -> N] is the byte at every offset (a
     finite byte string is zero from its length on), [alim] the largest
     allocation that succeeds.  The models are the *repaired* code (fix
-    patches 08, 09, 10, 15, 33, 50, 62, 70-79); [repaired = false] selects the
+    patches 08, 09, 10, 15, 33, 50, 62, 70-79, 90-94); [repaired = false] selects the
     pinned tree's logic where a [_refuted] witness is stated. *)
 From KdV Require Import Parse.Bounded Parse.NotesModel Parse.PElfModel Parse.FlatInit Parse.SizesModel
      Parse.ProbeModel Parse.BoundedProofs Parse.NotesProofs Parse.ElfProofs Parse.FlatInitProofs
@@ -85,6 +85,14 @@ Theorem C03_notes_linear_fuel : forall be c,
 Proof. exact do_notes_linear_fuel. Qed.
 Print Assumptions C03_notes_linear_fuel.
 
+(** the model carries the C widths: were [descoff] an [Elf32_Word] (so that
+    [size < descoff + descsz] is evaluated modulo 2^32), a 12-byte buffer with
+    [n_descsz = 0xfffffff4] would hand the callback a descriptor outside the
+    buffer *)
+Theorem C03_notes_narrow_descoff_refuted : exists be c, do_notes_w true be c = OOB.
+Proof. exact do_notes_narrow_refuted. Qed.
+Print Assumptions C03_notes_narrow_descoff_refuted.
+
 (** the callbacks' name comparison never looks outside the name *)
 Theorem C03_note_names_in_bounds : forall n, exists a, noarch_note n = Ok a.
 Proof. exact noarch_note_ok. Qed.
@@ -97,14 +105,22 @@ Theorem C03_elf_in_bounds : forall alim f flen, is_ub (elf_probe alim f flen) = 
 Proof. exact (fun alim f flen => proj1 (elf_probe_good alim f flen)). Qed.
 Print Assumptions C03_elf_in_bounds.
 
-(** PARTIAL: the table loops run exactly [e_phnum] / [e_shnum] (or the
-    extended-numbering counts) times; those counts are bounded by what the
-    allocator granted for the two arrays, not by the length of the file, so
-    "time proportional to the input" is *not* shown for them (DESIGN 9/C03;
-    recorded as an open finding class when it shows up as a timeout) *)
+(** never out of fuel: the table loops run [phnum] / [shnum] times (the header's
+    counts or the extended-numbering counts) *)
 Theorem C03_elf_linear_fuel_partial : forall alim f flen, elf_probe alim f flen <> OutOfFuel.
 Proof. exact (fun alim f flen => proj1 (proj2 (elf_probe_good alim f flen))). Qed.
 Print Assumptions C03_elf_linear_fuel_partial.
+
+(** ... and since fix 94 those counts are linear in the length of the file:
+    a table must lie within the file before it is walked.  PARTIAL only in
+    that the bound is stated for a probe that succeeds; a failing probe
+    performs a prefix of the same iterations, or none (the check precedes the
+    loop), which the outcome-valued model does not count. *)
+Theorem C03_elf_tables_linear_in_file : forall alim f flen r,
+  elf_probe alim f flen = Ok r ->
+  et_phnum (er_tables r) * 32 <= flen /\ et_shnum (er_tables r) * 40 <= flen.
+Proof. exact elf_probe_counts. Qed.
+Print Assumptions C03_elf_tables_linear_in_file.
 
 (** ** (d) flattened files (flatmap.c) *)
 Theorem C03_flat_in_bounds : forall alim f fuel,
@@ -163,9 +179,9 @@ Proof. exact (fun h H => conj (proj1 (dd_choose_good h H)) (proj1 (proj2 (dd_cho
 Print Assumptions C03_diskdump_header_in_bounds.
 
 (** page descriptor [size] against the page buffer *)
-Theorem C03_diskdump_page_in_bounds : forall alim f ps flags size off,
-  is_ub (dd_page alim f ps flags size off) = false.
-Proof. exact (fun alim f ps flags size off => proj1 (dd_page_good alim f ps flags size off)). Qed.
+Theorem C03_diskdump_page_in_bounds : forall alim f flen ps flags size off,
+  is_ub (dd_page alim f flen ps flags size off) = false.
+Proof. exact (fun alim f flen ps flags size off => proj1 (dd_page_good alim f flen ps flags size off)). Qed.
 Print Assumptions C03_diskdump_page_in_bounds.
 
 (** ** (f) LKCD [dp_size] against the per-context buffer, composed with RLE *)
